@@ -255,14 +255,12 @@ fn worker(args: &[String]) {
         unsafe {
             // watchdog in CPU time of this process (a loaded machine must not turn a slow history into a "hang"),
             // backed by a generous wall-clock alarm
-            let it = libc::itimerval { it_interval: libc::timeval { tv_sec: 0, tv_usec: 0 }, it_value: libc::timeval { tv_sec: 120, tv_usec: 0 } };
-            libc::setitimer(libc::ITIMER_PROF, &it, std::ptr::null_mut());
+            interp::cpu_watchdog(120);
             libc::alarm(1800);
         }
         let h = run_history(prop, seed, i, &keys, &known);
         unsafe {
-            let off = libc::itimerval { it_interval: libc::timeval { tv_sec: 0, tv_usec: 0 }, it_value: libc::timeval { tv_sec: 0, tv_usec: 0 } };
-            libc::setitimer(libc::ITIMER_PROF, &off, std::ptr::null_mut());
+            interp::cpu_watchdog(0);
             libc::alarm(0);
         }
         out.hists += 1;
